@@ -284,6 +284,20 @@ def run(ctx):  # noqa: C901, PLR0912, PLR0915
             body = ' ; '.join(unparse(s) for s in lp.body)
             ok = ok and len(parts) == 1 and f'{parts[0]}.SourceMds = {mds_v}' in body and \
                 f'{parts[0]}.values_list.extend({st_v})' in body and not any(isinstance(s, ast.If) for s in lp.body)
+        if n_loop == 0 and fname == 'fill_periodic_report_body':
+            # ... or it hands the states of every stored entry to the (verified) episodic sibling, unconditionally
+            hs_ = [hn for hn in gf.nodes if hn.kind == 'for']
+            dl = [(n, c) for n, c in gf.nodes_calling('fill_episodic_report_body')]
+            if len(hs_) == 1 and len(dl) == 1 and isinstance(hs_[0].stmt.target, ast.Name):
+                n_, c_ = dl[0]
+                lv = hs_[0].stmt.target.id
+                p_parts = fi.node.args.args[1].arg if len(fi.node.args.args) > 1 else None
+                delegated = len(c_.args) == 2 and unparse(c_.args[0]) == fi.node.args.args[0].arg and \
+                    gf.origin_text(n_, c_.args[1]) == f'{lv}.states' and unparse(hs_[0].stmt.iter) == p_parts and \
+                    hs_[0].stmt in n_.loops and not gf.facts_at(n_) and \
+                    not any(x.kind in ('continue', 'break') for x in gf.nodes)
+                if delegated:
+                    n_loop = 1
         ctx.ob('C04.R2', f'{fname}', ok and n_loop == 1,
                f'{fname}: one report part per source MDS, stamped with that MDS and filled with exactly its states', fi=fi)
     description_report_parts(ctx, 'C04.R2')
